@@ -2,6 +2,7 @@ package props
 
 import (
 	"bytes"
+	"encoding/binary"
 	"fmt"
 	"math"
 	"os"
@@ -172,6 +173,29 @@ func runC12(c *core.Ctx) *core.Violation {
 	env.DefaultOptions(conf.TypeRestore)
 	lc := env.CaptureLog("error", 1<<20)
 	_ = lc
+	if t.Choose(3) == 2 {
+		// history: before the round trip this process has already been handed a few damaged payloads (valid trailer,
+		// structure broken somewhere inside) which the decoder may reject half-way through; a rejected payload must
+		// leave nothing behind that affects the decodings that follow
+		if pv := genLogical(t); pv != nil {
+			if p, err := rdb.EncodeDump(toToolObj(pv)); err == nil && len(p) > 12 {
+				rejected := 0
+				for k := 0; k < 4; k++ {
+					m := append([]byte(nil), p[:len(p)-8]...)
+					pos := 1 + t.Choose(len(m)-3)
+					m[pos] ^= byte(1 + t.Choose(255))
+					var x [8]byte
+					binary.LittleEndian.PutUint64(x[:], rc.CRC64(0, m))
+					if _, err := decodeToolSafe(append(m, x[:]...)); err != nil {
+						rejected++
+					}
+				}
+				if rejected > 0 {
+					c.Probe("rejected_payload_before_roundtrip")
+				}
+			}
+		}
+	}
 	mode := t.Choose(5)
 	switch mode {
 	case 0, 1:
@@ -515,6 +539,6 @@ func init() {
 			"the in-repo pkg/libs/cupcake/rdb Encoder is called by no mode of the tool and is reachable only by direct call",
 		},
 		RealVsStub: "real: pkg/rdb EncodeDump/DecodeDump/Encoder/BinEntry/ObjEntry, upstream and in-repo cupcake encoder/decoder, loader, utils.CheckVersionChecksum, run.CmdRestore; simulated (file part only): TCP, target model, clock, scheduling",
-		ProbeNames: []string{"special_score", "rdbtype_10", "rdbtype_11", "rdbtype_12", "rdbtype_13", "rdbtype_14", "rdbtype_9"},
+		ProbeNames: []string{"rejected_payload_before_roundtrip", "special_score", "rdbtype_10", "rdbtype_11", "rdbtype_12", "rdbtype_13", "rdbtype_14", "rdbtype_9"},
 	})
 }
